@@ -21,11 +21,20 @@ Holders == {"func", "literal", "method"}
 \* what main does once the workers are served
 Mains == {"busy", "blocked-recv", "blocked-select-empty", "blocked-select1"}
 Workers == {1, 3}
+\* where the blocking statement is relative to the worker's loop: in the loop's own frame, or in a
+\* callee whose caller has a side effect left to execute when the callee returns.  A cancelled channel
+\* operation ends the frame it is in like a return; what stops the CALLER is its own run-id check
+\* (Stop.tla), so "callee" is the depth at which a released goroutine could go on.
+Depths == {"own", "callee"}
+\* a crowd of workers blocked in a callee and released by one cancellation: the only way to reach
+\* goroutines that run while stop() is between its two statements (Stop.tla, IdFirst = FALSE)
+Crowd == 2000
 
 \* a worker blocked in the construct waits for a value ("recv-like") or for a receiver ("send-like")
 WaitsFor(f) == IF f \in {"send", "select1-send"} THEN "receiver" ELSE "value"
 
-Family == [form : Forms, holder : Holders, main : Mains, workers : Workers]
+Family == [form : Forms, holder : Holders, main : Mains, workers : Workers, depth : Depths]
+          \cup [form : Forms, holder : {"func"}, main : {"blocked-recv"}, workers : {Crowd}, depth : {"callee"}]
 
 VARIABLE prog
 Init == prog \in Family
@@ -35,5 +44,5 @@ Spec == Init /\ [][Next]_prog
 \* every construct is classified, and both classes occur
 Classified == WaitsFor(prog.form) \in {"receiver", "value"}
 Emit == PrintT(<<"BEH", ToJson([form |-> prog.form, holder |-> prog.holder, main |-> prog.main,
-                                workers |-> prog.workers, waits |-> WaitsFor(prog.form)])>>)
+                                workers |-> prog.workers, depth |-> prog.depth, waits |-> WaitsFor(prog.form)])>>)
 ===============================================================================
